@@ -110,7 +110,14 @@ func init() {
 		if in.model != nil && !in.replaying() {
 			for _, e := range in.layerTab {
 				if in.evalModel(in.tc.Eq(e.id, id)) != 0 {
-					in.model[l.name] = in.evalModel(e.layer)
+					lv := in.evalModel(e.layer)
+					// models are shared with queued sibling paths: copy before writing
+					nm := make(Model, len(in.model)+1)
+					for k, v := range in.model {
+						nm[k] = v
+					}
+					nm[l.name] = lv
+					in.model = nm
 					in.modelMemo = nil
 					break
 				}
